@@ -130,7 +130,7 @@ class C27(Prop):
     props_module = 'LokiModel.Props.C27'
     findings_module = 'LokiModel.Findings.C27'
     driver = 'Drivers/C27.lean'
-    theorems = ['lcd_complete_partial', 'lcd_complete_while_partial', 'trS_doLoop_iterations']
+    theorems = ['lcd_complete_partial', 'lcd_complete_while_partial', 'trS_doLoop_iterations', 'raw_complete_flat_partial']
     design_ref = 'DESIGN.md 4.E C27'
     level = 'proof'
     level_text = ('Theorems (Lean kernel; every program, fuel, state, loop, pair of iterations i < j of the instrumented run, variable): '
@@ -139,12 +139,14 @@ class C27(Prop):
                   'variable, for bodies without ASSOCIATE/CALL. Findings (non-gating): lcd_full_false and raw_full_false by executed '
                   'witnesses (conditional definition; possibly zero-trip loop clearing the candidate). read_after_write_vars '
                   '(FindWrites/FindReads: activation, candidate set, clearing, branch-wise union, MultiConditional as leaf) is modelled '
-                  'and compared with the real function at every (ir, inspection node) pair of generated routines; it has no positive '
-                  'theorem yet. The iteration-tagged instrumented interpreter checks both real queries at every executed loop and at '
+                  'and compared with the real function at every (ir, inspection node) pair of generated routines; positive theorem '
+                  'raw_complete_flat_partial for straight-line irs (all nodes leaves: assignment, PRINT, EXIT, CYCLE, pragma): written '
+                  'before the node and read before rewritten at/after it => reported, unless a PRINT reads it or a leaf after the node '
+                  'defines it only partially. The iteration-tagged instrumented interpreter checks both real queries at every executed loop and at '
                   'every inspection point reached exactly once.')
-    level_note = ('raw_complete_partial is not proved (needs an invariant relating the single textual pass of FindReads to the trace; '
-                  'the failing families are characterised as decidable classes and by witness); ASSOCIATE/CALL only by '
-                  'correspondence + oracle.')
+    level_note = ('raw_complete for irs with compound statements is not proved (needs an invariant relating the single textual pass '
+                  'of FindReads - activation counter, branch-wise candidate union - to the trace; the failing families are '
+                  'characterised as decidable classes and by witness); ASSOCIATE/CALL only by correspondence + oracle.')
     technique = ('Lean 4 theorems about a hand-written model of the queries over the C26 model and the instrumented FIR semantics '
                  '+ correspondence with the real queries at every loop / inspection point + iteration-tagged execution oracle')
     rule = ('fir.gen_program under the C26 weight profiles, 3 sampled input sets per program; queries: loop_carried_dependencies '
